@@ -39,6 +39,14 @@ def circles(n: int) -> list[Circle]:
     return [Circle()] * n
 def pair() -> tuple[Circle, Token]:
     return Circle(), Token()
+def twins() -> tuple[Shape, Shape]:
+    return Shape(), Shape()
+def tokens2() -> tuple[Token, Token]:
+    return Token(), Token()
+def triple() -> tuple[Circle, Token, Token]:
+    return Circle(), Token(), Token()
+def anytuple() -> tuple:
+    return ()
 def lookup() -> dict[str, Square]:
     return {}
 def load(text):
@@ -49,7 +57,8 @@ def restore(text):
     return Circle(1.0)
 def maybe(flag: bool) -> Token | None:
     return Token() if flag else None
-def consume(a: Shape, b: list[Shape], c: tuple[Shape, Token], d: Circle | Token, e: dict[str, Shape], f: Canvas, g: Token | None) -> int:
+def consume(a: Shape, b: list[Shape], c: tuple[Shape, Token], d: Circle | Token, e: dict[str, Shape], f: Canvas, g: Token | None,
+            h: tuple, i: tuple[Shape, Shape], j: tuple[Circle, Token, Token]) -> int:
     return 0
 '''
 _MODULE = "c26_subject"
@@ -80,7 +89,8 @@ def _requested(cluster):
     T = cluster.type_system.convert_type_hint
     S, Ci, Sq, To, Ca = mod.Shape, mod.Circle, mod.Square, mod.Token, mod.Canvas
     hints = [S, Ci, Sq, To, Ca, Ci | To, Ca | Sq, To | None, list[S], list[Ci], tuple[S, To], tuple[Ci, To], dict[str, S], dict[str, Sq],
-             set[To], typing.Any, type(None), int, str, float, list[int], object, S | None, tuple[Ci | Sq, To], list[Ci | Sq]]
+             set[To], typing.Any, type(None), int, str, float, list[int], object, S | None, tuple[Ci | Sq, To], list[Ci | Sq],
+             tuple, tuple[S, S], tuple[To, To], tuple[Ci, To, To], tuple[S, To, To]]
     return [(str(h), T(h)) for h in hints]
 
 
